@@ -81,6 +81,16 @@ func HarnessC13a() {
 	verifAssert("C13.unmodified-no-writes", st.nStore == nst)
 	verifAssert("C13.unmodified-same-root", sameRoot(r0, r0b))
 	verifAssert("C13.clean-after-persist", !t0.IsDirty())
+	// a clone of the clean tree is that version too: persisting it writes nothing and returns the same root
+	if cl, cerr := t0.Clone(vctx); cerr == nil {
+		nst = st.nStore
+		rc, rerr := cl.MakeRoot(vctx)
+		verifAssert("C01.makeroot.err", rerr == nil)
+		if rerr == nil {
+			verifAssert("C13.unmodified-clone-no-writes", st.nStore == nst)
+			verifAssert("C13.unmodified-clone-same-root", sameRoot(r0, rc))
+		}
+	}
 
 	cur := t0
 	if verifBound("RELOAD") == 1 {
